@@ -27,7 +27,8 @@ type IBCase struct {
 	Publishers int    `json:"publishers"` // goroutines calling Server.Publish
 	NetPub     bool   `json:"net_pub"`    // a network publisher is blocked on the subscriber as well
 	Size       int    `json:"size"`
-	End        string `json:"end"` // serverclose | subclose-then-serverclose
+	End        string `json:"end"` // serverclose | subclose-then-serverclose | resume-then-serverclose (the subscriber reads again: the blocked calls finish)
+	BufSize    int    `json:"bufsize,omitempty"`
 }
 
 func runIB(c IBCase) (fail, incon string, classes []string) {
@@ -37,7 +38,10 @@ func runIB(c IBCase) (fail, incon string, classes []string) {
 			return "", "library goroutines left over from an earlier case", nil
 		}
 	}
-	b, err := fix.New(16384, "")
+	if c.BufSize == 0 {
+		c.BufSize = 16384
+	}
+	b, err := fix.New(int64(c.BufSize), "")
 	if err != nil {
 		return "", "fixture: " + err.Error(), nil
 	}
@@ -59,7 +63,7 @@ func runIB(c IBCase) (fail, incon string, classes []string) {
 	for g := 0; g < c.Publishers; g++ {
 		go func(g int) {
 			defer func() { recover(); done <- g }() // Server.Publish after Server.Close may panic in the caller's goroutine (topics provider closed); not this unit's business
-			for i := 0; i < 3*16384/c.Size+4; i++ {
+			for i := 0; i < 3*c.BufSize/c.Size+4; i++ {
 				if serverPublish(b, "ib/t", pl, 0) != nil {
 					return
 				}
@@ -67,7 +71,7 @@ func runIB(c IBCase) (fail, incon string, classes []string) {
 		}(g)
 	}
 	if c.NetPub {
-		for sent := 0; sent < 3*16384; sent += c.Size {
+		for sent := 0; sent < 3*c.BufSize && c.Size <= c.BufSize-8192-20; sent += c.Size {
 			P.SendAsync(codec.Encode(&codec.Packet{Type: codec.PUBLISH, Topic: []byte("ib/t"), Payload: pl}))
 		}
 	}
@@ -78,6 +82,27 @@ func runIB(c IBCase) (fail, incon string, classes []string) {
 		classes = append(classes, "Server.Publish-blocked-on-a-subscriber-that-stopped-reading")
 	}
 	what := fmt.Sprintf("%d goroutine(s) were blocked inside Server.Publish on a subscriber that had stopped reading", blocked)
+	if c.End == "resume-then-serverclose" {
+		// the subscriber reads again: everything that was held up goes through
+		S.OnPacket = func(p *codec.Packet, off int64) bool { return p.Type == codec.PUBLISH }
+		S.Unstall()
+		for g := 0; g < c.Publishers; g++ {
+			select {
+			case x := <-done:
+				done <- x // counted again below
+			case <-time.After(wire.DefaultWait):
+				if libQuiet() {
+					time.Sleep(200 * time.Millisecond)
+					if libQuiet() {
+						return fmt.Sprintf("%s; the subscriber reads again (its buffers have drained), yet a Server.Publish call of a %d-byte message is still blocked and every library goroutine is parked: %v", what, c.Size, census.Summary(census.Lib())), "", classes
+					}
+				}
+				return "", "Server.Publish slow after the subscriber resumed", classes
+			}
+			time.Sleep(time.Millisecond)
+		}
+		classes = append(classes, "subscriber-resumed-reading")
+	}
 	if c.End == "subclose-then-serverclose" {
 		S.Close()
 		if !S.WaitTeardown(wire.DefaultWait) {
@@ -141,7 +166,11 @@ func TestC16InprocBlocked(t *testing.T) {
 	}
 	rapid.Check(t, func(t *rapid.T) {
 		c := IBCase{Publishers: rapid.IntRange(1, 3).Draw(t, "pubs"), NetPub: rapid.Bool().Draw(t, "netpub"), Size: rapid.SampledFrom([]int{2000, 4096, 7000}).Draw(t, "size"),
-			End: rapid.SampledFrom([]string{"serverclose", "serverclose", "subclose-then-serverclose"}).Draw(t, "end")}
+			End: rapid.SampledFrom([]string{"serverclose", "serverclose", "subclose-then-serverclose", "resume-then-serverclose", "resume-then-serverclose"}).Draw(t, "end")}
+		if rapid.Bool().Draw(t, "bigbuf") {
+			c.BufSize = rapid.SampledFrom([]int{32768, 65536}).Draw(t, "bufsize")
+			c.Size = rapid.SampledFrom([]int{4096, 9000, 20000}).Draw(t, "bigsize")
+		}
 		c.Transport = genTransport(t)
 		f, incon, cls := runIB(c)
 		if incon != "" {
